@@ -11,6 +11,49 @@ def r6(x):
     return round(x, 6)
 
 
+def simple_state(obj, exclude=(), now=None, depth=1):
+    """Fingerprint helper: the plainly-valued attributes (slots and __dict__) of an implementation object.
+
+    Putting the implementation's own state into the fingerprint only makes it finer: two histories that the
+    reference model cannot tell apart are still kept separate when the implementation remembers something
+    different about them (which is exactly where hidden-state defects live).
+    """
+    names = set()
+    for klass in type(obj).__mro__:
+        names.update(getattr(klass, "__slots__", ()) or ())
+    names.update(getattr(obj, "__dict__", {}).keys())
+    out = []
+    for n in sorted(names):
+        if n in exclude or n.startswith("__") or n in ("machine", "log", "config", "platform", "hw_driver", "mode", "player"):
+            continue
+        try:
+            v = getattr(obj, n)
+        except Exception:       # noqa
+            continue
+        out.append((n, _simple(v, now, depth)))
+    return tuple(out)
+
+
+def _simple(v, now, depth):
+    if v is None or isinstance(v, (bool, int, str)):
+        return v
+    if isinstance(v, float):
+        return round(v - now, 6) if (now is not None and abs(v - now) < 1000 and v > 1e-3) else round(v, 6)
+    if isinstance(v, (list, tuple)) and len(v) <= 8 and depth > 0:
+        return tuple(_simple(x, now, depth - 1) for x in v)
+    if isinstance(v, (set, frozenset)) and len(v) <= 8 and depth > 0:
+        return tuple(sorted(repr(_simple(x, now, depth - 1)) for x in v))
+    if isinstance(v, dict) and len(v) <= 8 and depth > 0:
+        return tuple(sorted((repr(k), repr(_simple(x, now, depth - 1))) for k, x in v.items()))
+    if isinstance(v, asyncio.Future):
+        return "future:" + ("done" if v.done() else "pending")
+    if isinstance(v, asyncio.Event):
+        return "event:" + ("set" if v.is_set() else "clear")
+    if isinstance(v, (list, tuple, set, frozenset, dict)):
+        return "%s[%d]" % (type(v).__name__, len(v))
+    return type(v).__name__
+
+
 class MachineDriver:
     """Subclasses define machine_name, ops(), do_op(), reference + oracle."""
 
